@@ -172,7 +172,7 @@ CLAIMED = {
              "(2) Bounded axiomatic C11 model checking (z3): litmus programs of 2 (3 in thorough) threads x up to 4 operations from {clone, read, "
              "drop, into_vec, into_mut, is_unique} on shared / promoted (even, odd) / frozen / owner-backed storage and shared-form BytesMut handles (split = increment, drop, "
              "into Vec), all pairs of nine thread bodies per representation, and n threads cloning through one shared &Bytes that is still unpromoted; thread bodies are the atomic skeletons extracted from a fresh MIR dump of /repo; queries: freed "
-             "twice, never freed (buffer and every control block), two zero-copy takers - unsat for every interleaving and weak-memory outcome.",
+             "twice, never freed (buffer and every control block), two zero-copy takers, buffer / control block accessed through a handle that is not happens-before its deallocation - unsat for every interleaving and weak-memory outcome.",
         note=COMMON_NOTE + "E3 abstracts non-atomic work to READ/WRITE/FREE/TAKE events on abstract objects via a model table for core/alloc calls "
              "(listed in the evidence); counter values 8-bit; programs outside the bounds and 'sampled schedules on real threads' are outside. "
              "A sat answer is reported with its execution graph (a C11-level counterexample cannot be replayed natively on x86).",
